@@ -177,6 +177,54 @@ theorem rwmh_ratio (U : Vec ι → ℝ) (q q' z : Vec ι) :
     energy U (fun z => (1 / 2) * ∑ j, z j ^ 2) (q, z) - energy U (fun z => (1 / 2) * ∑ j, z j ^ 2) (q', z)
       = U q - U q' := by
   simp [energy]
+/-! ### RWMH on a target with bounded support (any measurable support `B`): no corrector is involved - a proposal
+    outside has misfit `+∞`, acceptance probability `exp(−∞) = 0` - and the truncated density is invariant -/
+
+/-- the truncated joint density `1_B(q) · exp(−U(q) − K(z))` -/
+noncomputable def gibbsOn (B : Set (Vec ι)) (U K : Vec ι → ℝ) (x : Phase ι) : ℝ≥0∞ :=
+  B.indicator (fun _ => (1 : ℝ≥0∞)) x.1 * gibbs U K x
+
+/-- acceptance probability as the code computes it: `exp(E − E')`, where `E' = +∞` outside the support -/
+noncomputable def acceptOn (B : Set (Vec ι)) (U K : Vec ι → ℝ) (Ψ : Phase ι → Phase ι) (x : Phase ι) : ℝ≥0∞ :=
+  B.indicator (fun _ => (1 : ℝ≥0∞)) (Ψ x).1 * acceptProb U K Ψ x
+
+theorem rule_is_min_on (B : Set (Vec ι)) (U K : Vec ι → ℝ) (Ψ : Phase ι → Phase ι) (x : Phase ι) :
+    gibbsOn B U K x * acceptOn B U K Ψ x = min (gibbsOn B U K x) (gibbsOn B U K (Ψ x)) := by
+  unfold gibbsOn acceptOn
+  by_cases h1 : x.1 ∈ B <;> by_cases h2 : (Ψ x).1 ∈ B <;>
+    simp only [Set.indicator_of_mem, Set.indicator_of_notMem, h1, h2, not_false_eq_true, one_mul, zero_mul,
+      mul_zero, min_self, zero_le, min_eq_right, min_eq_left]
+  exact rule_is_min (energy U K) Ψ x
+
+theorem rwmh_invariant_bounded (B : Set (Vec ι)) (hB : MeasurableSet B) (U : Vec ι → ℝ) (hU : Measurable U) (s : Vec ι)
+    (G : Phase ι → ℝ≥0∞) (hG : Measurable G) :
+    let K : Vec ι → ℝ := fun z => (1 / 2) * ∑ j, z j ^ 2
+    let Ψ : Phase ι → Phase ι := psi (fun z => s * z) (fun _ => 0) [Op.drift 1]
+    ∫⁻ x, gibbsOn B U K x * metropolisOp Ψ (acceptOn B U K Ψ) G x ∂((volume : Measure (Vec ι)).prod volume)
+      = ∫⁻ x, gibbsOn B U K x * G x ∂((volume : Measure (Vec ι)).prod volume) := by
+  intro K Ψ
+  have hK : Measurable K := by
+    apply Measurable.const_mul
+    exact Finset.measurable_sum _ (fun j _ => (measurable_pi_apply j).pow_const 2)
+  have hv : Measurable (fun z : Vec ι => s * z) := measurable_const.mul measurable_id
+  have hΨ : MeasurePreserving Ψ ((volume : Measure (Vec ι)).prod volume) ((volume : Measure (Vec ι)).prod volume) :=
+    psi_measurePreserving_ops _ _ hv measurable_const [Op.drift 1]
+  have hinv : ∀ x, Ψ (Ψ x) = x :=
+    psi_involution_of_palindrome _ _ (by intro p; simp) [Op.drift 1] rfl
+  have hH : Measurable (energy U K) := (hU.comp measurable_fst).add (hK.comp measurable_snd)
+  have hind : Measurable (fun x : Phase ι => B.indicator (fun _ => (1 : ℝ≥0∞)) x.1) :=
+    (measurable_const.indicator hB).comp measurable_fst
+  have hgib : Measurable (gibbs U K) := ENNReal.measurable_ofReal.comp (Real.measurable_exp.comp hH.neg)
+  apply metropolis_invariant _ _ hΨ hinv
+  · exact hind.mul hgib
+  · exact (hind.comp hΨ.measurable).mul (ENNReal.measurable_ofReal.comp
+      (measurable_const.min (Real.measurable_exp.comp (hH.sub (hH.comp hΨ.measurable)))))
+  · intro x
+    unfold gibbsOn gibbs
+    by_cases h1 : x.1 ∈ B <;> simp [h1]
+  · intro x; exact rule_is_min_on B U K Ψ x
+  · exact hG
+
 end hmc
 
 /-! ### boxed targets, one coordinate: stationarity **with** reflections
